@@ -25,6 +25,7 @@ type TraceJob struct {
 	States     []string // TLA+ records, one per state, fields = Vars
 	ActionProp []string // optional action-level formulas (checked as [][F]_vars via TNext conjunct)
 	ExtraDefs  string   // optional extra definitions placed before Trace
+	NoInit     bool     // the first state is not required to satisfy Init (continuation chunk of a longer trace)
 	Timeout    time.Duration
 }
 
@@ -65,7 +66,11 @@ func CheckTrace(dir string, job TraceJob) Verdict {
 	var b strings.Builder
 	fmt.Fprintf(&b, "---- MODULE TraceCheck ----\nEXTENDS %s\nVARIABLE tri\n%s\nTrace == <<\n", job.Module, job.ExtraDefs)
 	b.WriteString(strings.Join(job.States, ",\n"))
-	b.WriteString("\n>>\nTInit == tri = 1 /\\ Init")
+	if job.NoInit {
+		b.WriteString("\n>>\nTInit == tri = 1")
+	} else {
+		b.WriteString("\n>>\nTInit == tri = 1 /\\ Init")
+	}
 	for _, x := range job.Vars {
 		fmt.Fprintf(&b, "\n  /\\ %s = Trace[1].%s", x, x)
 	}
@@ -99,7 +104,11 @@ func CheckTrace(dir string, job TraceJob) Verdict {
 	}
 	ctx, cancel := context.WithTimeout(context.Background(), to)
 	defer cancel()
-	cmd := exec.CommandContext(ctx, "java", "-XX:+UseSerialGC", "-Xmx2g", "-cp",
+	heap := "-Xmx3g"
+	if len(job.States) > 350 { // the trace literal dominates TLC's memory
+		heap = "-Xmx10g"
+	}
+	cmd := exec.CommandContext(ctx, "java", "-XX:+UseSerialGC", heap, "-cp",
 		"/opt/veriftools/tla/tla2tools.jar:/opt/veriftools/tla/CommunityModules-deps.jar", "tlc2.TLC",
 		"-workers", "1", "-metadir", filepath.Join(work, "states"), "-config", "TraceCheck.cfg", "TraceCheck.tla")
 	cmd.Dir = work
@@ -137,7 +146,7 @@ func CheckTrace(dir string, job TraceJob) Verdict {
 	}
 	if m := reDepth.FindStringSubmatch(text); m != nil && strings.Contains(text, "No error has been found") {
 		d, _ := strconv.Atoi(m[1])
-		if d == 0 || strings.Contains(text, "0 distinct states found") {
+		if d == 0 || regexp.MustCompile(`(^|[^0-9])0 distinct states found`).MatchString(text) {
 			v.Kind, v.Detail = "init", tailN(2000)
 			return v
 		}
